@@ -12,11 +12,6 @@ open LemoModel.CowTrie
 @[simp] theorem bind_panic {α β : Type} (f : α → Res β) : ((Res.panic : Res α) >>= f) = Res.panic := rfl
 @[simp] theorem bind_stuck {α β : Type} (f : α → Res β) : ((Res.stuck : Res α) >>= f) = Res.stuck := rfl
 
-def mapRes {α β : Type} (f : α → β) : Res α → Res β
-  | .ok a => .ok (f a)
-  | .panic => .panic
-  | .stuck => .stuck
-
 theorem scan_sim (h : Heap) (key : Key) : ∀ (ks : List Nat) (i : Nat), scan h key ks i = scanL (labs h) key ks i
   | [], _ => rfl
   | c :: cs, i => by
